@@ -13,3 +13,13 @@ pub use fish::Fish;
 pub use powershell::PowerShell;
 pub use shell::Shell;
 pub use zsh::Zsh;
+
+/// Verification hook (only with `--cfg clap_verif`): call a shell's private escaping function.
+#[cfg(clap_verif)]
+#[doc(hidden)]
+pub fn __verif_escape(kind: &str, s: &str) -> Option<String> {
+    fish::verif_escape(kind, s)
+        .or_else(|| zsh::verif_escape(kind, s))
+        .or_else(|| powershell::verif_escape(kind, s))
+        .or_else(|| elvish::verif_escape(kind, s))
+}
